@@ -4,28 +4,40 @@
 
   All statements are about `CachedModel/Locks.lean`: the lock classes and their ranks, the table `programs`
   of every API call and background loop body of the crate (cross-checked at run time against the lock-event
-  log of the real crate), and the abstract system `Sys` of ANY number of threads, each with the classes it
-  holds and the rest of its program. The semantics `stepThread`, the well-formedness `WF`, and the
-  specification `BlockedSpec` of blocking are in `CachedProofs/Lemmas/Locks.lean`.
+  log of the real crate), and the abstract system `Sys` of ANY number of threads, each with the concrete locks
+  `⟨class, instance⟩` it holds, the rest of its program and the instance index `want` it is acquiring. The
+  semantics `stepThread`, the well-formedness `WF`, and the specification `BlockedSpec` of blocking are in
+  `CachedProofs/Lemmas/Locks.lean`.
+
+  The global order is the lexicographic order `Lock.lt` on (rank of the class, instance index): a plain `acq c`
+  needs every held class ranked strictly below `c`; `acqUp c` (the DashMap iterator taking shard i+1 while it
+  holds shard i) needs every held class ranked at most `c` and every held lock of class `c` of a smaller
+  instance index. Either way every held lock is `Lock.lt` the wanted one (`C18_lock_order`), so the thread whose
+  wanted lock is maximal among the waiting ones cannot be waiting (proved as a lexicographic induction on
+  `(8 - rank, maxWant + 1 - want)`, `no_blocked_acq`).
 
   Quantifiers: every system `S` (any number of threads, any queue lengths, any positive capacities, any
   programs that pass the static check `Thread.ok` — not only those of the table), every predicate `blocked`
   (which threads the lock / channel implementation keeps waiting: any fairness, writer preference, spurious
-  choice of whom to wake) that satisfies `BlockedSpec`, every schedule.
+  choice of whom to wake) that satisfies `BlockedSpec` (a thread waiting at `acq c` / `acqUp c` has ANOTHER thread
+  holding exactly the lock `⟨c, want⟩`), every schedule, every choice by the environment of the instance a `rel c`
+  releases and of the instance announced for the next acquisition.
 
   Assumptions, all in `WF`: `Thread.ok` for every thread (checked for the crate's programs by `decide`, kept by
   every step: `C18_wf_preserved`), positive capacities, and `has_consumer` (a blocking send finds the consumer
   of its channel inside its loop; when the consumer is gone the channel is disconnected and `send` fails
   instead of blocking). `has_consumer` is an environment assumption about the consumer loops being reloaded
-  (`todo = []` is "between programs"), it is not something `stepThread` can preserve.
+  (`todo = []` is "between programs"), it is not something `stepThread` can preserve. No "a lock has one holder"
+  condition is needed (read locks have several holders; the argument follows any one of them).
 
   `C18_no_deadlock` is the global statement (some thread can move, or the system is idle); `C18_no_wait_cycle` is
   the local one (no set of threads waiting on one another, also while other threads run) and needs neither
   `has_consumer` nor anything about threads outside the set.
 
-  One condition had to be ADDED for `C18_wf_preserved`: `Balanced` (the rest of every program releases all it
-  holds and acquires, `heldAfter held todo = []`; `programsOk` checks it for whole programs). `Thread.ok` alone
-  is not inductive, see `C18_ok_alone_not_inductive`. `C18_no_deadlock` does not need it.
+  The former extra hypothesis `Balanced` of `C18_wf_preserved` is now the last clause of `Thread.ok` in the model.
+  `C18_wf_preserved` has ONE side condition, on the environment: the instance announced for the next acquisition
+  respects the upward rule (if the new head is `acqUp c`, it is above every held instance of `c`); it is needed,
+  see the example after (a'').
 -/
 import CachedProofs.Lemmas.Locks
 
@@ -55,11 +67,11 @@ theorem C18_no_deadlock {S : Sys} {blocked : Nat → Prop} (wf : WF S) (bs : Blo
 
 /-- **No cycle of lock or queue waits ever forms**, also among a PART of the threads while the others run.
     Let `P` be any set of threads that wait on one another (`WaitClosed`): each member is kept waiting, a member
-    waiting for a lock of class `c` waits for a member holding one, a member waiting for room in `q` waits for a
-    member that is the consumer of `q`. (Any wait cycle `i₀ → i₁ → … → i₀` is such a set; so is any set of
-    threads stuck for ever.) Then no member waits for a lock or for room in a queue and no member holds a lock:
-    every member is a consumer at `recv` on its own EMPTY queue. Needs only the discipline and positive
-    capacities, not `has_consumer`. -/
+    waiting for the lock `⟨c, want⟩` (at `acq c` or at `acqUp c`) waits for a member holding that lock, a member
+    waiting for room in `q` waits for a member that is the consumer of `q`. (Any wait cycle `i₀ → i₁ → … → i₀` is
+    such a set; so is any set of threads stuck for ever.) Then no member waits for a lock or for room in a queue
+    and no member holds a lock: every member is a consumer at `recv` on its own EMPTY queue. Needs only the
+    discipline and positive capacities, not `has_consumer`. -/
 theorem C18_no_wait_cycle {S : Sys} {blocked : Nat → Prop} {P : Nat → Prop}
     (hok : ∀ t ∈ S.threads, t.ok = true) (hcap : ∀ q, 0 < S.cap q)
     (bs : BlockedSpec S blocked) (wc : WaitClosed S blocked P) :
@@ -68,53 +80,99 @@ theorem C18_no_wait_cycle {S : Sys} {blocked : Nat → Prop} {P : Nat → Prop}
   waitClosed_idle hok hcap bs wc
 
 /-- Instance of `C18_no_wait_cycle` with a two-element set: the classical deadly embrace — two threads, each kept
-    waiting for a lock class the other holds — is impossible, whatever the rest of the system does. -/
+    waiting (at a plain or an upward acquire) for the lock instance the other holds — is impossible, whatever the
+    rest of the system does. -/
 theorem C18_no_embrace {S : Sys} {blocked : Nat → Prop} (wf : WF S) (bs : BlockedSpec S blocked)
     {i j : Nat} {t u : Thread} {c d : Cls} {rt ru : List Op}
     (ht : S.threads[i]? = some t) (hu : S.threads[j]? = some u)
-    (hti : t.todo = .acq c :: rt) (huj : u.todo = .acq d :: ru)
-    (hbi : blocked i) (hbj : blocked j) (hc : c ∈ u.held) (hd : d ∈ t.held) : False := by
+    (hti : t.todo = .acq c :: rt ∨ t.todo = .acqUp c :: rt) (huj : u.todo = .acq d :: ru ∨ u.todo = .acqUp d :: ru)
+    (hbi : blocked i) (hbj : blocked j) (hc : (⟨c, t.want⟩ : Lock) ∈ u.held) (hd : (⟨d, u.want⟩ : Lock) ∈ t.held) :
+    False := by
   have wc : WaitClosed S blocked (fun k => k = i ∨ k = j) := by
     refine ⟨?_, ?_, ?_⟩
     · rintro k (rfl | rfl) <;> assumption
     · rintro k x e r (rfl | rfl) hx hxt
       · rw [ht] at hx; cases hx
-        rw [hti] at hxt; cases hxt
+        have he : e = c := by
+          rcases hti with h | h <;> rcases hxt with h' | h' <;> (rw [h] at h'; cases h' <;> rfl)
+        subst he
         exact ⟨j, u, Or.inr rfl, hu, hc⟩
       · rw [hu] at hx; cases hx
-        rw [huj] at hxt; cases hxt
+        have he : e = d := by
+          rcases huj with h | h <;> rcases hxt with h' | h' <;> (rw [h] at h'; cases h' <;> rfl)
+        subst he
         exact ⟨i, t, Or.inl rfl, ht, hd⟩
     · rintro k x q r (rfl | rfl) hx hxt
       · rw [ht] at hx; cases hx
-        rw [hti] at hxt; cases hxt
+        rcases hti with h | h <;> (rw [h] at hxt; cases hxt)
       · rw [hu] at hx; cases hx
-        rw [huj] at hxt; cases hxt
+        rcases huj with h | h <;> (rw [h] at hxt; cases hxt)
   obtain ⟨q, rest, h, _⟩ := C18_no_wait_cycle wf.ok wf.cap_pos bs wc i t (Or.inl rfl) ht
-  rw [hti] at h
-  cases h
+  rcases hti with h' | h' <;> (rw [h'] at h; cases h)
 
-/-- **The static check of each program suffices.** A step of any thread keeps `Thread.ok` (and `Balanced`, and
-    the capacities) and touches no other thread: `okFrom held (op :: rest)` gives `okFrom (held after op) rest`. -/
-theorem C18_wf_preserved {S S' : Sys} {i : Nat} (wf : WF S) (bal : Balanced S) (h : stepThread S i = some S') :
-    (∀ t ∈ S'.threads, t.ok = true) ∧ Balanced S' ∧ (∀ q, 0 < S'.cap q) ∧
+/-- The embrace at the level of lock CLASSES (the statement of C18 before `acqUp` was added to the model), by the
+    discipline alone: a thread at a plain `acq c` holding some lock of class `d`, and a thread at an acquire of
+    class `d` holding some lock of class `c`, cannot both keep the discipline. (With BOTH threads at `acqUp` of one
+    class there is no contradiction at class level — one iterator holds shard 0 and wants 1, another holds 2 and
+    wants 3 — which is why `BlockedSpec` and `WaitClosed` speak about lock instances.) -/
+theorem C18_no_embrace_classes {t u : Thread} {c d : Cls} {rt ru : List Op} {x y : Lock}
+    (htok : t.ok = true) (huok : u.ok = true)
+    (hti : t.todo = .acq c :: rt) (huj : u.todo = .acq d :: ru ∨ u.todo = .acqUp d :: ru)
+    (hx : x ∈ u.held) (hxc : x.cls = c) (hy : y ∈ t.held) (hyd : y.cls = d) : False := by
+  have h1 := Thread.ok_acq htok hti y hy
+  have h2 := Thread.ok_held_lt_wanted huok huj x hx
+  unfold Lock.lt at h2
+  simp only at h2
+  rw [hxc] at h2
+  rw [hyd] at h1
+  omega
+
+/-- The order behind the argument: in a thread that keeps the discipline, every held lock is strictly below the
+    lock being acquired in the lexicographic order `Lock.lt` on (rank of the class, instance index), which is a
+    strict total order. -/
+theorem C18_lock_order {t : Thread} {c : Cls} {rest : List Op} (h : t.ok = true)
+    (ht : t.todo = .acq c :: rest ∨ t.todo = .acqUp c :: rest) :
+    (∀ x ∈ t.held, Lock.lt x ⟨c, t.want⟩) ∧
+    (∀ a : Lock, ¬ Lock.lt a a) ∧ (∀ a b c : Lock, Lock.lt a b → Lock.lt b c → Lock.lt a c) ∧
+    (∀ a b : Lock, Lock.lt a b ∨ a = b ∨ Lock.lt b a) :=
+  ⟨Thread.ok_held_lt_wanted h ht, Lock.lt_irrefl, fun _ _ _ => Lock.lt_trans, Lock.lt_total⟩
+
+/-- **The static check of each program suffices.** A step of any thread keeps `Thread.ok` (which now contains
+    "the rest of the program releases everything held": a finished thread holds nothing) and the capacities, and
+    touches no other thread. Side condition on the environment's choice `next` (the instance index of the stepped
+    thread's next acquisition): it respects the upward rule — if the new head of `todo` is `acqUp c`, every lock of
+    class `c` the thread holds has an instance index below `next`. (The choice `inst` of the instance released
+    needs no side condition: a step that releases a lock that is not held is `none`.) -/
+theorem C18_wf_preserved {S S' : Sys} {i inst next : Nat} (wf : WF S) (h : stepThread S i inst next = some S')
+    (hnext : ∀ t', S'.threads[i]? = some t' → ∀ c rest, t'.todo = .acqUp c :: rest →
+      ∀ x ∈ t'.held, x.cls = c → x.inst < next) :
+    (∀ t ∈ S'.threads, t.ok = true) ∧ (∀ q, 0 < S'.cap q) ∧
     (∀ j, j ≠ i → S'.threads[j]? = S.threads[j]?) := by
-  obtain ⟨h1, h2⟩ := stepThread_ok wf.ok bal h
+  have h1 := stepThread_ok wf.ok h hnext
   obtain ⟨_, hother, hcap, _⟩ := stepThread_todo h
-  exact ⟨h1, h2, fun q => by rw [hcap]; exact wf.cap_pos q, hother⟩
+  exact ⟨h1, fun q => by rw [hcap]; exact wf.cap_pos q, hother⟩
 
-/-- Why `Balanced` is there: `Thread.ok` alone is not preserved (its clause "finished threads hold nothing"
-    looks only at the present). This thread is `ok`, it acquires and never releases. -/
-theorem C18_ok_alone_not_inductive :
-    let S : Sys := { threads := [{ held := [], todo := [.acq .wu], consumerOf := none }], len := fun _ => 0, cap := fun _ => 1 }
-    (∀ t ∈ S.threads, t.ok = true) ∧
-    ∃ S', stepThread S 0 = some S' ∧ ¬ (∀ t ∈ S'.threads, t.ok = true) := by
-  refine ⟨by decide, _, rfl, ?_⟩
-  intro h
-  exact absurd (h _ (List.mem_singleton.mpr rfl)) (by decide)
+/-- ... along a whole schedule: if after every prefix of the schedule the announced instances respect the upward
+    rule (`upOk`, the second clause of `Thread.ok`), every thread is `ok` after the schedule. -/
+theorem C18_run_ok {S S' : Sys} {sched : List (Nat × Nat × Nat)} (hok : ∀ t ∈ S.threads, t.ok = true)
+    (hup : ∀ k Sk, run S (sched.take k) = some Sk → ∀ t ∈ Sk.threads, upOk t.held t.want t.todo = true)
+    (hrun : run S sched = some S') : ∀ t ∈ S'.threads, t.ok = true :=
+  run_ok sched S S' hok hup hrun
 
-/-- **The crate's programs pass the check**: every program of the table keeps the rank order, holds nothing at a
-    blocking channel operation and ends holding nothing; consumers never do a blocking send and only the
-    consumer of a channel receives from it. -/
+/-- What a step does to the locks held: an acquire adds exactly the lock `⟨c, want⟩` the thread was acquiring, a
+    release removes exactly the lock `⟨c, inst⟩` (which was held), channel operations change nothing. -/
+theorem C18_step_held {S S' : Sys} {i inst next : Nat} (h : stepThread S i inst next = some S') :
+    ∃ t t' op rest, S.threads[i]? = some t ∧ S'.threads[i]? = some t' ∧ t.todo = op :: rest ∧
+      (match op with
+       | .acq c => t'.held = ⟨c, t.want⟩ :: t.held
+       | .acqUp c => t'.held = ⟨c, t.want⟩ :: t.held
+       | .rel c => (⟨c, inst⟩ : Lock) ∈ t.held ∧ t'.held = t.held.erase ⟨c, inst⟩
+       | _ => t'.held = t.held) :=
+  stepThread_held h
+
+/-- **The crate's programs pass the check**: every program of the table keeps the rank order (an `acqUp` may share
+    its class with held locks, nothing held ranks above it), holds nothing at a blocking channel operation and ends
+    holding nothing; consumers never do a blocking send and only the consumer of a channel receives from it. -/
 theorem C18_programs_ok : programsOk = true ∧ consumersOk = true := by decide
 
 /-- In the crate a consumer loop body is `recv q` followed by lock operations only: consumers produce nothing
@@ -123,28 +181,54 @@ theorem C18_programs_ok : programsOk = true ∧ consumersOk = true := by decide
 theorem C18_consumers_only_consume :
     programs.all (fun p => match p.2.1 with
       | some q => decide (p.2.2.head? = some (.recv q)) &&
-          p.2.2.tail.all (fun op => match op with | .acq _ => true | .rel _ => true | _ => false)
+          p.2.2.tail.all (fun op => match op with | .acq _ => true | .acqUp _ => true | .rel _ => true | _ => false)
       | none => true) = true := by decide
 
 /-- Every program of the table, started holding nothing by a thread with the table's consumer role, is a
-    `Thread.ok` and balanced thread — the hypotheses `WF.ok` and `Balanced` for the real crate. -/
+    `Thread.ok` thread — the hypothesis `WF.ok` for the real crate — whatever instance it is about to acquire
+    (in particular `want := 0`). -/
 theorem C18_program_thread_ok :
-    ∀ p ∈ programs, ({ held := [], todo := p.2.2, consumerOf := p.2.1 } : Thread).ok = true ∧
-      heldAfter [] p.2.2 = [] := by
-  have h : programs.all (fun p => ({ held := [], todo := p.2.2, consumerOf := p.2.1 } : Thread).ok &&
-      (heldAfter [] p.2.2).isEmpty) = true := by decide
-  intro p hp
-  have := List.all_eq_true.mp h p hp
-  simp only [Bool.and_eq_true, List.isEmpty_iff] at this
-  exact this
+    ∀ p ∈ programs, ∀ w : Nat, ({ held := [], todo := p.2.2, want := w, consumerOf := p.2.1 } : Thread).ok = true := by
+  have h : programs.all (fun p => ({ held := [], todo := p.2.2, want := 0, consumerOf := p.2.1 } : Thread).ok) = true := by
+    decide
+  intro p hp w
+  have h0 := List.all_eq_true.mp h p hp
+  obtain ⟨h1, _, h3, h4⟩ := (Thread.ok_iff _).mp h0
+  refine (Thread.ok_iff _).mpr ⟨h1, ?_, h3, h4⟩
+  apply upOk_iff.mpr
+  intro c rest _ x hx
+  cases hx
 
 /-- The rank table is an order on classes: no two classes share a rank (and all ranks are below 8). -/
 theorem C18_rank_table : (∀ a b : Cls, a.rank = b.rank → a = b) ∧ ∀ c : Cls, c.rank < 8 :=
   ⟨Cls.rank_injective, Cls.rank_lt_8⟩
 
+/-- **The run-time validation of the lock log is sound for the discipline.** An edge "holding a lock of class
+    `held`, acquiring a lock of class `wanted`" that `edgeAllowed` accepts goes strictly up in rank, or stays in
+    the class and that class is one some program iterates over with `acqUp`; re-acquiring the very same lock
+    instance is never accepted; and the only class with an `acqUp` in the table is `kwShard`. -/
+theorem C18_observed_edges_sound :
+    (∀ held wanted : Cls, edgeAllowed held wanted false = true →
+      (held.rank < wanted.rank ∨ (held = wanted ∧ ∃ p ∈ programs, Op.acqUp wanted ∈ p.2.2))) ∧
+    (∀ h w : Cls, edgeAllowed h w true = false) ∧
+    (∀ c : Cls, (∃ p ∈ programs, Op.acqUp c ∈ p.2.2) ↔ c = .kwShard) := by
+  refine ⟨?_, ?_, ?_⟩
+  · intro held wanted h
+    unfold edgeAllowed at h
+    simp only [Bool.not_false, Bool.true_and, Bool.or_eq_true, decide_eq_true_eq, Bool.and_eq_true, beq_iff_eq,
+      List.any_eq_true, List.contains_iff_mem] at h
+    rcases h with h | ⟨h1, p, hp, hmem⟩
+    · exact Or.inl h
+    · exact Or.inr ⟨h1, p, hp, hmem⟩
+  · intro h w
+    simp [edgeAllowed]
+  · intro c
+    cases c <;> decide
+
 /-- **Every program ends.** One step of thread `i` removes exactly the first operation of its `todo` and leaves
-    every other thread alone; a thread with something to do can always be stepped. -/
-theorem C18_step_decreases {S S' : Sys} {i : Nat} (h : stepThread S i = some S') :
+    every other thread alone; a thread that keeps the discipline and has something to do can always be stepped
+    (`C18_terminates`). -/
+theorem C18_step_decreases {S S' : Sys} {i inst next : Nat} (h : stepThread S i inst next = some S') :
     (∃ t t', S.threads[i]? = some t ∧ S'.threads[i]? = some t' ∧ t'.todo.length + 1 = t.todo.length) ∧
     (∀ j, j ≠ i → S'.threads[j]? = S.threads[j]?) := by
   obtain ⟨⟨t, t', ht, ht', hne, htail, _⟩, hother, _, _⟩ := stepThread_todo h
@@ -154,38 +238,42 @@ theorem C18_step_decreases {S S' : Sys} {i : Nat} (h : stepThread S i = some S')
   | nil => exact absurd hl hne
   | cons op r => simp
 
-/-- Under ANY schedule (any interleaving with the other threads), after thread `i` was scheduled `k` times it has
-    exactly the last `todo.length - k` operations left, `k` never exceeds `todo.length`, and after exactly
-    `todo.length` of its own steps it is finished; until then it can be stepped. So a thread that is not blocked
-    for ever finishes its program — programs are finite lists, there are no loops inside a program. -/
-theorem C18_terminates {S S' : Sys} {sched : List Nat} {i : Nat} {t : Thread}
+/-- Under ANY schedule (any interleaving with the other threads, any choice of the instances released and
+    announced), after thread `i` was scheduled `k` times it has exactly the last `todo.length - k` operations left,
+    `k` never exceeds `todo.length`, and after exactly `todo.length` of its own steps it is finished; until then it
+    can be stepped, for some choice of the instance released and every announced instance, PROVIDED it still keeps
+    the discipline (`t'.ok`, see `C18_run_ok`; needed since the model has concrete locks: a `rel c` by a thread that
+    holds no lock of class `c` is not a step). So a thread that is not blocked for ever finishes its program —
+    programs are finite lists, there are no loops inside a program. -/
+theorem C18_terminates {S S' : Sys} {sched : List (Nat × Nat × Nat)} {i : Nat} {t : Thread}
     (hrun : run S sched = some S') (ht : S.threads[i]? = some t) :
-    ∃ t', S'.threads[i]? = some t' ∧ t'.todo = t.todo.drop (sched.count i) ∧
-      sched.count i ≤ t.todo.length ∧ t'.todo.length + sched.count i = t.todo.length ∧
-      (sched.count i = t.todo.length → t'.todo = []) ∧
-      (sched.count i < t.todo.length → ∃ S'', stepThread S' i = some S'') := by
+    ∃ t', S'.threads[i]? = some t' ∧ t'.todo = t.todo.drop ((sched.map (·.1)).count i) ∧
+      (sched.map (·.1)).count i ≤ t.todo.length ∧ t'.todo.length + (sched.map (·.1)).count i = t.todo.length ∧
+      ((sched.map (·.1)).count i = t.todo.length → t'.todo = []) ∧
+      ((sched.map (·.1)).count i < t.todo.length → t'.ok = true →
+        ∃ inst, ∀ next, ∃ S'', stepThread S' i inst next = some S'') := by
   obtain ⟨t', ht', hdrop, hle, _⟩ := run_todo i sched S S' t hrun ht
-  have hlen : t'.todo.length + sched.count i = t.todo.length := by
+  have hlen : t'.todo.length + (sched.map (·.1)).count i = t.todo.length := by
     rw [hdrop, List.length_drop]; omega
   refine ⟨t', ht', hdrop, hle, hlen, ?_, ?_⟩
   · intro heq
     apply List.eq_nil_of_length_eq_zero
     omega
-  · intro hlt
-    apply stepThread_isSome ht'
+  · intro hlt hok
+    apply stepThread_isSome ht' hok
     intro hnil
     rw [hnil] at hlen
     simp at hlen
     omega
 
-/-! ## Non-vacuity (`exampleSys`, `badSys` are defined in `Lemmas/Locks.lean`) -/
+/-! ## Non-vacuity (`exampleSys`, `sampleThread`, `badSys`, `badUpSys` are defined in `Lemmas/Locks.lean`) -/
 
 open Cls Op Chan
 
 /-- (a) the hypotheses of `C18_no_deadlock` and `C18_wf_preserved` are met by `exampleSys`, with client and worker
-    blocked by the sweeper -/
-example : WF exampleSys ∧ Balanced exampleSys ∧ BlockedSpec exampleSys (fun i => i = 0 ∨ i = 1) := by
-  refine ⟨⟨by decide, ?_, ?_⟩, by unfold Balanced; decide, ⟨?_, ?_, ?_, ?_, ?_, ?_⟩⟩
+    blocked by the sweeper (which holds exactly the lock instances `⟨ttlShard, 0⟩` and `⟨wu, 0⟩` they want) -/
+example : WF exampleSys ∧ BlockedSpec exampleSys (fun i => i = 0 ∨ i = 1) := by
+  refine ⟨⟨by decide, ?_, ?_⟩, ⟨?_, ?_, ?_, ?_, ?_, ?_⟩⟩
   · intro q; cases q <;> decide
   · intro i t q rest ht htodo
     match i with
@@ -211,7 +299,7 @@ example : WF exampleSys ∧ Balanced exampleSys ∧ BlockedSpec exampleSys (fun 
 /-- (a') the same moment a little later: the client is blocked at `send cmd` on a FULL command queue, the worker
     (the consumer of `cmd`) is inside its loop body — `has_consumer` is met non-vacuously. -/
 example : WF { exampleSys with
-    threads := exampleSys.threads.set 0 { held := [], todo := [send cmd], consumerOf := none }
+    threads := exampleSys.threads.set 0 { held := [], todo := [send cmd], want := 0, consumerOf := none }
     len := fun _ => 4 } := by
   refine ⟨by decide, ?_, ?_⟩
   · intro q; cases q <;> decide
@@ -224,9 +312,43 @@ example : WF { exampleSys with
     | 1 | 2 => simp [exampleSys] at ht; subst ht; simp at htodo
     | n + 3 => simp [exampleSys] at ht
 
+/-- (a'') the upward acquire: the worker inside the sample iteration of `Put`, holding `⟨kwShard, 0⟩`, at
+    `acqUp kwShard` (`sampleTodo` is the rest of the table's program from there), is `ok` when it is acquiring
+    instance 1 and NOT `ok` when it is re-acquiring instance 0 (not greater than what it holds) -/
+example : ((programs.map (·.2.2))[9]?.map (·.drop 10)) = some sampleTodo ∧
+    (sampleThread 1).held = [⟨kwShard, 0⟩] ∧ (sampleThread 1).todo.head? = some (acqUp kwShard) ∧
+    (sampleThread 1).ok = true ∧ (sampleThread 0).ok = false := by decide
+
+/-- ... and it steps as the DashMap iterator does: it takes shard 1 while holding shard 0, then lets go of shard 0
+    (the environment picks instance 0 for the `rel kwShard`), keeps shard 1 across the `af` estimate and releases
+    it; asked to release an instance it does not hold (7) it cannot step. The side condition of `C18_wf_preserved`
+    holds at every step (no `acqUp` becomes the head) and every intermediate thread is `ok`. -/
+example :
+    let S : Sys := { threads := [sampleThread 1], len := fun _ => 0, cap := fun _ => 1 }
+    ((run S [(0, 0, 0)]).map (fun S' => S'.threads.map (fun t => (t.held, t.ok)))) =
+        some [([⟨kwShard, 1⟩, ⟨kwShard, 0⟩], true)] ∧
+    ((run S [(0, 0, 0), (0, 0, 0)]).map (fun S' => S'.threads.map (fun t => (t.held, t.ok)))) =
+        some [([⟨kwShard, 1⟩], true)] ∧
+    ((run S [(0, 0, 0), (0, 0, 0), (0, 0, 0), (0, 0, 0), (0, 1, 0)]).map
+        (fun S' => S'.threads.map (fun t => (t.held, t.ok)))) = some [([], true)] ∧
+    ((run S [(0, 0, 0), (0, 7, 0)]).map (fun S' => S'.threads.map (fun t => (t.held, t.ok)))) = none := by
+  decide
+
+/-- ... and the side condition of `C18_wf_preserved` is needed: the worker at `acq af` inside the refill iteration,
+    holding `⟨kwShard, 0⟩`, with `acqUp kwShard` coming; announcing instance 1 for it keeps `Thread.ok`, announcing
+    instance 0 (the one it holds) does not. -/
+example :
+    let S : Sys := { threads := [{ held := [⟨kwShard, 0⟩, ⟨af, 0⟩], todo := [rel af, acqUp kwShard, rel kwShard, rel kwShard],
+                                   want := 0, consumerOf := some cmd }], len := fun _ => 0, cap := fun _ => 1 }
+    (S.threads.map Thread.ok = [true]) ∧
+    ((stepThread S 0 0 1).map (fun S' => S'.threads.map Thread.ok)) = some [true] ∧
+    ((stepThread S 0 0 0).map (fun S' => S'.threads.map Thread.ok)) = some [false] := by
+  decide
+
 /-- (b) the classical deadlock `badSys` is REJECTED by the check: the thread that holds `wu` and wants `kwShard`
-    violates the rank order, the other one (the crate's `UpdateWeight` order) is fine -/
-example : badSys.threads.map Thread.ok = [false, true] := by decide
+    violates the rank order, the other one (the crate's `UpdateWeight` order) is fine; (b') so is the same-class
+    deadlock `badUpSys` of two iterators going in opposite directions: the one going downward is rejected -/
+example : badSys.threads.map Thread.ok = [false, true] ∧ badUpSys.threads.map Thread.ok = [true, false] := by decide
 
 /-- ... and the check is needed: `badSys` meets every other hypothesis (`BlockedSpec` with both threads blocked,
     positive capacities; `has_consumer` is vacuous, nobody sends), and the conclusion of `C18_no_deadlock` fails for it. -/
